@@ -1507,7 +1507,17 @@ func (c *ControlPlane) RebuildReloadDatapath() error {
 		return fmt.Errorf("rebuild routing kernspace: %w", err)
 	}
 	c.ReplaceLpmIndices(lpmIndices)
-	if err := clearReloadDomainRoutingMap(c.core.bpf.Load()); err != nil {
+	// The failed generation refilled the shared domain_routing_map from its own
+	// tracker. This generation's tracker still lists every owner as published,
+	// so after emptying the table it has to forget them as well; otherwise the
+	// replay below finds nothing to write and the table stays empty.
+	clearTable := func() error { return clearReloadDomainRoutingMap(c.core.bpf.Load()) }
+	if tracker := c.core.domainRouting; tracker != nil {
+		err = tracker.clearAndForget(clearTable)
+	} else {
+		err = clearTable()
+	}
+	if err != nil {
 		return fmt.Errorf("rebuild clearReloadDomainRoutingMap: %w", err)
 	}
 	cache := c.CloneDnsCache()
